@@ -501,6 +501,12 @@ func vSelectorMatches(selector string, lbls map[string]string) bool {
 			}
 			continue
 		}
+		if k := strings.Index(req, " notin ("); k > 0 && strings.HasSuffix(req, ")") && !strings.Contains(req[k+8:], ",") {
+			if v, ok := lbls[req[:k]]; ok && v == req[k+8:len(req)-1] { // "key notin (value)"
+				return false
+			}
+			continue
+		}
 		kv := strings.SplitN(req, "=", 2)
 		if len(kv) != 2 {
 			sel, err := labels.Parse(selector)
